@@ -845,7 +845,7 @@ def _pack_asn1_utf8_string(
 def _encode_object_identifier(oid: str) -> bytes:
     """Encode an object identifier."""
     cmps = list(map(int, oid.split(".")))
-    if cmps[0] > 39 or cmps[1] > 39:
+    if cmps[0] > 2 or (cmps[0] < 2 and cmps[1] > 39):
         raise ValueError("Illegal object identifier")
     cmps = [40 * cmps[0] + cmps[1]] + cmps[2:]
     cmps.reverse()
@@ -1014,11 +1014,12 @@ def _read_asn1_object_identifier(
     if not raw_oid:
         raise ValueError("ASN.1 OBJECT IDENTIFIER value must contain at least one octet")
 
-    first_element = struct.unpack("B", raw_oid[:1])[0]
-    second_element = first_element % 40
-    ids = [(first_element - second_element) // 40, second_element]
+    # X.690 8.19.4 - the first sub identifier is (X * 40) + Y where X is 0, 1,
+    # or 2 and Y is only limited to 39 when X is 0 or 1.
+    first_element, idx = _unpack_asn1_octet_number(raw_oid)
+    first_arc = min(first_element // 40, 2)
+    ids = [first_arc, first_element - (40 * first_arc)]
 
-    idx = 1
     while idx != len(raw_oid):
         oid, octet_len = _unpack_asn1_octet_number(raw_oid[idx:])
         ids.append(oid)
